@@ -1428,7 +1428,9 @@ fn write_num(num: f32, buf: &mut Vec<u8>, precision: u8) {
     // Note that at least in Rust 1.64 the number formatting in debug and release modes
     // can be slightly different. So having a lower precision makes
     // our output and tests reproducible.
-    let v = (num * POW_VEC[precision as usize]).round() / POW_VEC[precision as usize];
+    // There is nothing to gain beyond the last entry: `f32` has fewer significant digits.
+    let pow = POW_VEC[(precision as usize).min(POW_VEC.len() - 1)];
+    let v = (num * pow).round() / pow;
 
     write!(buf, "{}", v).unwrap();
 }
